@@ -285,28 +285,7 @@ func (s *PostgresStore) Enqueue(env Envelope) error {
 			return err
 		}
 
-		if s.maxDepth > 0 {
-			active, err := s.activeCount()
-			if err != nil {
-				return err
-			}
-			if active >= s.maxDepth {
-				switch s.dropPolicy {
-				case "drop_oldest":
-					dropped, err := s.dropOldestQueued()
-					if err != nil {
-						return err
-					}
-					if !dropped {
-						return ErrQueueFull
-					}
-				default:
-					return ErrQueueFull
-				}
-			}
-		}
-
-		_, err = s.db.ExecContext(context.Background(), `
+		const insertSQL = `
 INSERT INTO queue_items (
   id, route, target, state, received_at, attempt, next_run_at,
   payload, headers_json, trace_json, dead_reason, schema_version, lease_id, lease_until
@@ -314,7 +293,8 @@ INSERT INTO queue_items (
   $1, $2, $3, $4, $5, $6, $7,
   $8, $9, $10, $11, $12, $13, $14
 )
-`,
+`
+		insertArgs := []any{
 			env.ID,
 			env.Route,
 			env.Target,
@@ -329,10 +309,56 @@ INSERT INTO queue_items (
 			env.SchemaVersion,
 			nullIfEmpty(strings.TrimSpace(env.LeaseID)),
 			nullTime(env.LeaseUntil),
-		)
+		}
+
+		ctx := context.Background()
+		if s.maxDepth <= 0 {
+			if _, err := s.db.ExecContext(ctx, insertSQL, insertArgs...); err != nil {
+				return mapPostgresInsertError(err)
+			}
+			return nil
+		}
+
+		// Depth check, eviction and insert share one transaction, so a refused
+		// enqueue (queue full, duplicate id, insert error) evicts nothing.
+		tx, err := s.db.BeginTx(ctx, nil)
 		if err != nil {
+			return err
+		}
+		committed := false
+		defer func() {
+			if committed {
+				return
+			}
+			_ = tx.Rollback()
+		}()
+
+		active, err := s.activeCountTx(ctx, tx)
+		if err != nil {
+			return err
+		}
+		if active >= s.maxDepth {
+			switch s.dropPolicy {
+			case "drop_oldest":
+				dropped, err := s.dropOldestQueuedTx(ctx, tx)
+				if err != nil {
+					return err
+				}
+				if !dropped {
+					return ErrQueueFull
+				}
+			default:
+				return ErrQueueFull
+			}
+		}
+
+		if _, err := tx.ExecContext(ctx, insertSQL, insertArgs...); err != nil {
 			return mapPostgresInsertError(err)
 		}
+		if err := tx.Commit(); err != nil {
+			return err
+		}
+		committed = true
 		return nil
 	})
 }
@@ -1907,9 +1933,9 @@ WHERE id = $3
 	return err
 }
 
-func (s *PostgresStore) activeCount() (int, error) {
+func (s *PostgresStore) activeCountTx(ctx context.Context, tx *sql.Tx) (int, error) {
 	var count int
-	err := s.db.QueryRowContext(context.Background(), `
+	err := tx.QueryRowContext(ctx, `
 SELECT COUNT(*)
 FROM queue_items
 WHERE state = $1 OR state = $2
@@ -1920,8 +1946,8 @@ WHERE state = $1 OR state = $2
 	return count, err
 }
 
-func (s *PostgresStore) dropOldestQueued() (bool, error) {
-	res, err := s.db.ExecContext(context.Background(), `
+func (s *PostgresStore) dropOldestQueuedTx(ctx context.Context, tx *sql.Tx) (bool, error) {
+	res, err := tx.ExecContext(ctx, `
 DELETE FROM queue_items
 WHERE id = (
   SELECT id
